@@ -462,7 +462,7 @@ Section Closed.
 
   Lemma closed_ok_split l r : slice_closed sg pt xs l = Ok r -> exists run rest, cyclic_split l run rest.
   Proof.
-    unfold slice_closed. destruct (closed_roll sg ValueError l) as [k|e]; cbn [rbind]; [|discriminate].
+    unfold slice_closed. destruct (closed_roll sg l) as [k|e]; cbn [rbind]; [|discriminate].
     destruct (roll_rot l k) as (x0 & y0 & El & Ew). set (w := roll l k) in *. clearbody w.
     intros H. apply core_ok_split in H as (pre & run & post & [E Hne Hf Hnf] & Hpp).
     destruct w as [|h t].
@@ -759,7 +759,7 @@ Theorem result_finite_not_behind pl p rows :
 Proof.
   destruct p as [vs closed]. unfold sliced_by_plane, slice_any. cbn [pclosed pv].
   destruct (closed && (1 <? length vs)%nat).
-  - unfold slice_closed. destruct (closed_roll _ _ _) as [k|e]; cbn [rbind]; [|discriminate]. apply core_rows_good.
+  - unfold slice_closed. destruct (closed_roll _ _) as [k|e]; cbn [rbind]; [|discriminate]. apply core_rows_good.
   - apply core_rows_good.
 Qed.
 
@@ -806,4 +806,30 @@ Proof.
     + intros rows' H. injection H as <-. reflexivity.
     + intros e. split; discriminate.
   - split; [|split]; try discriminate. intros e. split; intros H; injection H as <-; reflexivity.
+Qed.
+
+(* the specification vocabulary, unfolded *)
+Lemma spec_vocabulary pl (vs pre run post rest : list (vec3 R)) a b :
+  (open_split (plane_sign ROps pl) vs pre run post <->
+     vs = pre ++ run ++ post /\ run <> [] /\ Forall (in_front pl) run /\ Forall (fun v => ~ in_front pl v) (pre ++ post)) /\
+  (cyclic_split (plane_sign ROps pl) vs run rest <->
+     (exists x y, vs = x ++ y /\ y ++ x = run ++ rest) /\ run <> [] /\ rest <> [] /\
+     Forall (in_front pl) run /\ Forall (fun v => ~ in_front pl v) rest) /\
+  spec_points pl pre run post =
+    enter (plane_sign ROps pl) (fun v => v) (crossing pl) (olast pre) (hd_error run) ++ run ++
+    leave (plane_sign ROps pl) (fun v => v) (crossing pl) (olast run) (hd_error post) /\
+  closed_spec_points pl run rest =
+    enter (plane_sign ROps pl) (fun v => v) (crossing pl) (olast rest) (hd_error run) ++ run ++
+    leave (plane_sign ROps pl) (fun v => v) (crossing pl) (olast run) (hd_error rest) /\
+  crossing pl a b =
+    vadd ROps a (vscale ROps (plane_sd ROps pl a / (plane_sd ROps pl a - plane_sd ROps pl b)) (vsub ROps b a)) /\
+  (opposite pl a b <-> (plane_sd ROps pl a < 0 /\ 0 < plane_sd ROps pl b) \/ (plane_sd ROps pl b < 0 /\ 0 < plane_sd ROps pl a)).
+Proof.
+  split; [|split; [|split; [|split; [|split]]]].
+  - split; [intros [H1 H2 H3 H4]; auto|intros (H1 & H2 & H3 & H4); constructor; assumption].
+  - reflexivity.
+  - unfold spec_points, spec_result. rewrite map_id. reflexivity.
+  - unfold closed_spec_points, closed_spec_result. rewrite map_id. reflexivity.
+  - reflexivity.
+  - reflexivity.
 Qed.
